@@ -5,6 +5,7 @@ import (
 	"fmt"
 	"reflect"
 	"strings"
+	"time"
 
 	cedar "github.com/cedar-policy/cedar-go"
 	"github.com/cedar-policy/cedar-go/verif/core"
@@ -535,8 +536,9 @@ func rejections() *core.Family {
 
 func Check() *core.Check {
 	return &core.Check{
-		ID:    "C07",
-		Title: "The Cedar text parser builds exactly the tree the grammar prescribes",
+		ID:        "C07",
+		HangAfter: 120 * time.Second, // cases take at most seconds (max_case_s in the evidence); see core.Family.HangAfter
+		Title:     "The Cedar text parser builds exactly the tree the grammar prescribes",
 		Rule: "bounded-exhaustive: every operator form and every (parent, position, child) pairing (depth 2; depth 3 over one operator per grammar level) rendered by a reference printer in fully parenthesised and minimal-parenthesis modes x 4 layouts (tight, spaces, comments between all tokens, CRLF+tabs); parse(render(T)) must equal T (reflect.DeepEqual on Policy.AST(), position ignored); plus a literal/escape table with expected values and a generated rejection table; " +
 			"every executed case is non-trivial (distinct text, distinct expected tree)",
 		Assumptions: []string{
